@@ -480,7 +480,7 @@ pub fn run(args: &Args) -> i32 {
     for prog in crate::schedmc::reentrant_programs() {
         let call = prog.lines().find(|l| l.starts_with("  r = ")).unwrap_or("").trim().to_string();
         let lines: Vec<&str> = prog.lines().collect();
-        let eff = lines.iter().position(|l| l.starts_with("cb = |x|") || l.trim_start().starts_with("@<: |o|")).and_then(|i| lines.get(i + 1)).map(|l| l.trim().to_string()).unwrap_or_default();
+        let eff = lines.iter().position(|l| l.starts_with("cb = |x|") || l.trim_start().starts_with("@<: |o|") || l.trim() == "@display: ||").and_then(|i| lines.get(i + 1)).map(|l| l.trim().to_string()).unwrap_or_default();
         labels.push(format!("re-entrant: `{call}` while its callback / comparison does `{eff}`"));
         scripts.push(prog.replace("print r\n", "d = '{r}'\n").replace("print l\n", "d = '{l}'\n").replace("print m\n", "d = '{m}'\n").replace("print 'error'\n", "d = '{err}'\n"));
     }
